@@ -204,7 +204,12 @@ def run(ctx):
     order_rng = random.Random(ctx.seed)
     order_rng.shuffle(primary)
     order_rng.shuffle(secondary)
-    budget = 43 if ctx.quick else 380
+    budget = 41 if ctx.quick else 380
+    import time
+    t_run0 = time.time()          # the budget counts from here (imports done); at most 25 s of start-up slack on a loaded machine
+
+    def left(b):
+        return min(b - (time.time() - t_run0), ctx.time_left(b + 25))
     done_primary = done_secondary = True
 
     def one(case, seed):
@@ -246,7 +251,7 @@ def run(ctx):
 
     mine = primary[w::nw]
     for k, case in enumerate(mine):
-        if ctx.time_left(budget) < 0:
+        if left(budget) < 0 and k >= 50:
             done_primary = False
             ctx.note("primary space stopped by the time budget after %d of %d cases of this worker" % (k, len(mine)))
             break
@@ -255,14 +260,14 @@ def run(ctx):
     rng = ctx.rng
     n2 = ctx.scale(40, 6000)
     for k in range(n2):
-        if ctx.time_left(budget + (3 if ctx.quick else 50)) < 0:
+        if left(budget + (3 if ctx.quick else 50)) < 0:
             break
         sets = tuple(frozenset(v for v in ALL if rng.random() < rng.choice([0.15, 0.4, 0.7])) for _ in range(2))
         case = (sets, rng.choice(ALL), rng.random() < 0.35, rng.random() < 0.3, rng.choice([0.0, 0.0, 0.1]))
         one(case, ctx.seed * 104729 + w * 1000003 + k)
     mine2 = secondary[w::nw]
     for k, case in enumerate(mine2):
-        if ctx.time_left(budget + (6 if ctx.quick else 120)) < 0:
+        if left(budget + (6 if ctx.quick else 120)) < 0:
             done_secondary = False
             break
         one(case, ctx.seed * 7919 + 50000 + k)
